@@ -106,4 +106,259 @@ theorem extend_object_exact (env : Env) (exts : List TypeDef) (t : TypeD) (hk : 
   rw [h1, h2]
   rfl
 
+/-! ### inversion lemmas -/
+
+theorem bind_ok {α β} (x : R α) (f : α → R β) (b : β) (h : (x >>= f) = .ok b) : ∃ a, x = .ok a ∧ f a = .ok b := by
+  cases x with
+  | error e => simp [bind, Except.bind] at h
+  | ok a => exact ⟨a, rfl, by simpa [bind, Except.bind] using h⟩
+
+theorem mapM_append_inv {α β} (f : α → R β) : ∀ (l₁ l₂ : List α) (r : List β), (l₁ ++ l₂).mapM f = .ok r →
+    ∃ r₁ r₂, l₁.mapM f = .ok r₁ ∧ l₂.mapM f = .ok r₂ ∧ r = r₁ ++ r₂ := by
+  intro l₁
+  induction l₁ with
+  | nil => intro l₂ r h; exact ⟨[], r, by simp [pure, Except.pure], by simpa using h, rfl⟩
+  | cons x xs ih =>
+    intro l₂ r h
+    rw [List.cons_append, List.mapM_cons] at h
+    obtain ⟨b, hb, h2⟩ := bind_ok _ _ _ h
+    obtain ⟨bs, hbs, h3⟩ := bind_ok _ _ _ h2
+    simp only [pure, Except.pure, Except.ok.injEq] at h3
+    obtain ⟨r₁, r₂, e1, e2, e3⟩ := ih l₂ bs hbs
+    refine ⟨b :: r₁, r₂, ?_, e2, by rw [← h3, e3]; rfl⟩
+    rw [List.mapM_cons, hb, e1]; rfl
+
+/-- the built members of each block, read off the (successful) build of all blocks' members -/
+def newsOf {E α β} (f : α → R β) (sel : E → List α) (e : E) : List β :=
+  match (sel e).mapM f with | .ok r => r | .error _ => []
+
+theorem flatMap_mapM_inv {E α β} (f : α → R β) (sel : E → List α) : ∀ (es : List E) (all : List β),
+    (es.flatMap sel).mapM f = .ok all → (∀ e ∈ es, (sel e).mapM f = .ok (newsOf f sel e)) ∧ all = es.flatMap (newsOf f sel) := by
+  intro es
+  induction es with
+  | nil => intro all h; simp [pure, Except.pure] at h; subst h; simp
+  | cons e es ih =>
+    intro all h
+    rw [List.flatMap_cons] at h
+    obtain ⟨r₁, r₂, h1, h2, h3⟩ := mapM_append_inv f _ _ _ h
+    obtain ⟨ih1, ih2⟩ := ih r₂ h2
+    have hn : newsOf f sel e = r₁ := by simp [newsOf, h1]
+    refine ⟨?_, ?_⟩
+    · intro e' he'
+      rcases List.mem_cons.mp he' with rfl | hm
+      · rw [hn]; exact h1
+      · exact ih1 e' hm
+    · rw [List.flatMap_cons, hn, h3, ih2]
+
+theorem checkNames_ok_iff (env : Env) (ns : List String) : checkNames env ns = .ok () ↔ ns.all env.resolves = true := by
+  unfold checkNames
+  split
+  · simp_all [pure, Except.pure]
+  · simp_all [sdlErr]
+
+theorem checkNames_append_inv (env : Env) (a b : List String) (h : checkNames env (a ++ b) = .ok ()) :
+    checkNames env a = .ok () ∧ checkNames env b = .ok () := by
+  rw [checkNames_ok_iff] at h ⊢
+  rw [checkNames_ok_iff]
+  simpa [List.all_append] using h
+
+theorem checkNames_flatMap_inv (env : Env) (sel : TypeDef → List String) (es : List TypeDef)
+    (h : checkNames env (es.flatMap sel) = .ok ()) : ∀ e ∈ es, checkNames env (sel e) = .ok () := by
+  intro e he
+  rw [checkNames_ok_iff] at h ⊢
+  rw [List.all_eq_true] at h ⊢
+  intro x hx
+  exact h x (List.mem_flatMap.mpr ⟨e, he, hx⟩)
+
+/-! ### what `mergeDef` is -/
+
+private def mstep (acc e : TypeDef) : TypeDef :=
+  { acc with interfaces := acc.interfaces ++ e.interfaces, fields := acc.fields ++ e.fields, members := acc.members ++ e.members,
+             values := acc.values ++ e.values, inputFields := acc.inputFields ++ e.inputFields }
+
+private theorem foldl_mstep : ∀ (es : List TypeDef) (t : TypeDef),
+    (es.foldl mstep t).kind = t.kind ∧ (es.foldl mstep t).name = t.name ∧ (es.foldl mstep t).desc = t.desc ∧
+    (es.foldl mstep t).fields = t.fields ++ es.flatMap (·.fields) ∧
+    (es.foldl mstep t).interfaces = t.interfaces ++ es.flatMap (·.interfaces) ∧
+    (es.foldl mstep t).members = t.members ++ es.flatMap (·.members) ∧
+    (es.foldl mstep t).values = t.values ++ es.flatMap (·.values) ∧
+    (es.foldl mstep t).inputFields = t.inputFields ++ es.flatMap (·.inputFields) := by
+  intro es
+  induction es with
+  | nil => intro t; simp
+  | cons e es ih =>
+    intro t
+    obtain ⟨h1, h2, h3, h4, h5, h6, h7, h8⟩ := ih (mstep t e)
+    simp only [List.foldl_cons, List.flatMap_cons]
+    refine ⟨h1, h2, h3, ?_, ?_, ?_, ?_, ?_⟩
+    · rw [h4]; simp [mstep, List.append_assoc]
+    · rw [h5]; simp [mstep, List.append_assoc]
+    · rw [h6]; simp [mstep, List.append_assoc]
+    · rw [h7]; simp [mstep, List.append_assoc]
+    · rw [h8]; simp [mstep, List.append_assoc]
+
+/-- the merged definition: same kind, name and description; every member list is the definition's list followed
+    by the lists of its extension blocks in document order -/
+theorem mergeDef_spec (X : List TypeDef) (t : TypeDef) :
+    (mergeDef X t).kind = t.kind ∧ (mergeDef X t).name = t.name ∧ (mergeDef X t).desc = t.desc ∧
+    (mergeDef X t).fields = t.fields ++ (mineOf X t.name).flatMap (·.fields) ∧
+    (mergeDef X t).interfaces = t.interfaces ++ (mineOf X t.name).flatMap (·.interfaces) ∧
+    (mergeDef X t).members = t.members ++ (mineOf X t.name).flatMap (·.members) ∧
+    (mergeDef X t).values = t.values ++ (mineOf X t.name).flatMap (·.values) ∧
+    (mergeDef X t).inputFields = t.inputFields ++ (mineOf X t.name).flatMap (·.inputFields) :=
+  foldl_mstep (mineOf X t.name) t
+
+/-! ### the link: extending a built type = building the merged definition -/
+
+private theorem ok_inj {α} {a b : α} (h : (Except.ok a : R α) = .ok b) : a = b := by cases h; rfl
+
+theorem link_interface (env : Env) (X : List TypeDef) (t : TypeDef) (bt r : TypeD) (hkk : t.kind = .interface)
+    (hb : buildTypeDef env t = .ok bt) (hm : buildTypeDef env (mergeDef X t) = .ok r)
+    (hk : ∀ e ∈ X, e.name = t.name → e.kind = t.kind) (hn : (r.fields.map (·.name)).Nodup) :
+    extendType env X bt = .ok r := by
+  obtain ⟨s1, s2, s3, s4, s5, s6, s7, s8⟩ := mergeDef_spec X t
+  unfold buildTypeDef at hb hm
+  rw [s1] at hm
+  simp only [hkk] at hb hm
+  obtain ⟨fs, hfs, hb2⟩ := bind_ok _ _ _ hb
+  obtain ⟨fs', hfs', hm2⟩ := bind_ok _ _ _ hm
+  have ebt := ok_inj hb2
+  have er := ok_inj hm2
+  rw [s4] at hfs'
+  obtain ⟨r₁, r₂, h1, h2, h3⟩ := mapM_append_inv _ _ _ _ hfs'
+  rw [hfs] at h1
+  have e1 := ok_inj h1
+  obtain ⟨hnews, hall⟩ := flatMap_mapM_inv (buildField env) (·.fields) (mineOf X t.name) r₂ h2
+  subst ebt er
+  have := extend_interface_exact env X { kind := .interface, name := t.name, desc := t.desc, fields := fs } rfl
+    (fun e he hne => by rw [hk e he hne, hkk]) (newsOf (buildField env) (·.fields)) hnews
+    (by simp only [] at hn ⊢; rw [h3, ← e1, hall] at hn; exact hn)
+  rw [this, s2, s3, h3, ← e1, hall]
+
+theorem link_input (env : Env) (X : List TypeDef) (t : TypeDef) (bt r : TypeD) (hkk : t.kind = .input)
+    (hb : buildTypeDef env t = .ok bt) (hm : buildTypeDef env (mergeDef X t) = .ok r)
+    (hk : ∀ e ∈ X, e.name = t.name → e.kind = t.kind) (hn : (r.inputFields.map (·.name)).Nodup) :
+    extendType env X bt = .ok r := by
+  obtain ⟨s1, s2, s3, s4, s5, s6, s7, s8⟩ := mergeDef_spec X t
+  unfold buildTypeDef at hb hm
+  rw [s1] at hm
+  simp only [hkk] at hb hm
+  obtain ⟨fs, hfs, hb2⟩ := bind_ok _ _ _ hb
+  obtain ⟨fs', hfs', hm2⟩ := bind_ok _ _ _ hm
+  have ebt := ok_inj hb2
+  have er := ok_inj hm2
+  rw [s8] at hfs'
+  obtain ⟨r₁, r₂, h1, h2, h3⟩ := mapM_append_inv _ _ _ _ hfs'
+  rw [hfs] at h1
+  have e1 := ok_inj h1
+  obtain ⟨hnews, hall⟩ := flatMap_mapM_inv (buildArgument env) (·.inputFields) (mineOf X t.name) r₂ h2
+  subst ebt er
+  have := extend_input_exact env X { kind := .input, name := t.name, desc := t.desc, inputFields := fs } rfl
+    (fun e he hne => by rw [hk e he hne, hkk]) (newsOf (buildArgument env) (·.inputFields)) hnews
+    (by simp only [] at hn ⊢; rw [h3, ← e1, hall] at hn; exact hn)
+  rw [this, s2, s3, h3, ← e1, hall]
+
+theorem link_enum (env : Env) (X : List TypeDef) (t : TypeDef) (bt r : TypeD) (hkk : t.kind = .enum)
+    (hb : buildTypeDef env t = .ok bt) (hm : buildTypeDef env (mergeDef X t) = .ok r)
+    (hk : ∀ e ∈ X, e.name = t.name → e.kind = t.kind) (hn : (r.values.map (·.name)).Nodup) :
+    extendType env X bt = .ok r := by
+  obtain ⟨s1, s2, s3, s4, s5, s6, s7, s8⟩ := mergeDef_spec X t
+  unfold buildTypeDef at hb hm
+  rw [s1] at hm
+  simp only [hkk] at hb hm
+  obtain ⟨_, _, hb1⟩ := bind_ok _ _ _ hb
+  obtain ⟨_, _, hm1⟩ := bind_ok _ _ _ hm
+  obtain ⟨fs, hfs, hb2⟩ := bind_ok _ _ _ hb1
+  obtain ⟨fs', hfs', hm2⟩ := bind_ok _ _ _ hm1
+  have ebt := ok_inj hb2
+  have er := ok_inj hm2
+  rw [s7] at hfs'
+  obtain ⟨r₁, r₂, h1, h2, h3⟩ := mapM_append_inv _ _ _ _ hfs'
+  rw [hfs] at h1
+  have e1 := ok_inj h1
+  obtain ⟨hnews, hall⟩ := flatMap_mapM_inv buildEnumValue (·.values) (mineOf X t.name) r₂ h2
+  subst ebt er
+  have := extend_enum_exact env X { kind := .enum, name := t.name, desc := t.desc, values := fs } rfl
+    (fun e he hne => by rw [hk e he hne, hkk]) (newsOf buildEnumValue (·.values)) hnews
+    (by simp only [] at hn ⊢; rw [h3, ← e1, hall] at hn; exact hn)
+  rw [this, s2, s3, h3, ← e1, hall]
+
+theorem link_union (env : Env) (X : List TypeDef) (t : TypeDef) (bt r : TypeD) (hkk : t.kind = .union)
+    (hb : buildTypeDef env t = .ok bt) (hm : buildTypeDef env (mergeDef X t) = .ok r)
+    (hk : ∀ e ∈ X, e.name = t.name → e.kind = t.kind) (hn : r.members.Nodup) :
+    extendType env X bt = .ok r := by
+  obtain ⟨s1, s2, s3, s4, s5, s6, s7, s8⟩ := mergeDef_spec X t
+  unfold buildTypeDef at hb hm
+  rw [s1] at hm
+  simp only [hkk] at hb hm
+  obtain ⟨_, _, hb2⟩ := bind_ok _ _ _ hb
+  obtain ⟨_, hc, hm2⟩ := bind_ok _ _ _ hm
+  have ebt := ok_inj hb2
+  have er := ok_inj hm2
+  rw [s6] at hc
+  have hc2 := checkNames_flatMap_inv env (·.members) _ (checkNames_append_inv env _ _ hc).2
+  subst ebt er
+  have := extend_union_exact env X { kind := .union, name := t.name, desc := t.desc, members := t.members } rfl
+    (fun e he hne => by rw [hk e he hne, hkk]) hc2 (by simp only [] at hn ⊢; rw [s6] at hn; exact hn)
+  rw [this, s2, s3, s6]
+
+theorem link_scalar (env : Env) (X : List TypeDef) (t : TypeDef) (bt r : TypeD) (hkk : t.kind = .scalar)
+    (hb : buildTypeDef env t = .ok bt) (hm : buildTypeDef env (mergeDef X t) = .ok r)
+    (hk : ∀ e ∈ X, e.name = t.name → e.kind = t.kind) : extendType env X bt = .ok r := by
+  obtain ⟨s1, s2, s3, s4, s5, s6, s7, s8⟩ := mergeDef_spec X t
+  unfold buildTypeDef at hb hm
+  rw [s1] at hm
+  simp only [hkk] at hb hm
+  have ebt := ok_inj hb
+  have er := ok_inj hm
+  subst ebt er
+  have := extend_scalar_exact env X { kind := .scalar, name := t.name, desc := t.desc } rfl
+    (fun e he hne => by rw [hk e he hne, hkk])
+  rw [this, s2, s3]
+
+theorem link_object (env : Env) (X : List TypeDef) (t : TypeDef) (bt r : TypeD) (hkk : t.kind = .object)
+    (hb : buildTypeDef env t = .ok bt) (hm : buildTypeDef env (mergeDef X t) = .ok r)
+    (hk : ∀ e ∈ X, e.name = t.name → e.kind = t.kind) (hn : (r.fields.map (·.name)).Nodup) (hni : r.interfaces.Nodup) :
+    extendType env X bt = .ok r := by
+  obtain ⟨s1, s2, s3, s4, s5, s6, s7, s8⟩ := mergeDef_spec X t
+  unfold buildTypeDef at hb hm
+  rw [s1] at hm
+  simp only [hkk] at hb hm
+  obtain ⟨fs, hfs, hb1⟩ := bind_ok _ _ _ hb
+  obtain ⟨fs', hfs', hm1⟩ := bind_ok _ _ _ hm
+  obtain ⟨_, _, hb2⟩ := bind_ok _ _ _ hb1
+  obtain ⟨_, hc, hm2⟩ := bind_ok _ _ _ hm1
+  have ebt := ok_inj hb2
+  have er := ok_inj hm2
+  rw [s4] at hfs'
+  obtain ⟨r₁, r₂, h1, h2, h3⟩ := mapM_append_inv _ _ _ _ hfs'
+  rw [hfs] at h1
+  have e1 := ok_inj h1
+  obtain ⟨hnews, hall⟩ := flatMap_mapM_inv (buildField env) (·.fields) (mineOf X t.name) r₂ h2
+  rw [s5] at hc
+  have hc2 := checkNames_flatMap_inv env (·.interfaces) _ (checkNames_append_inv env _ _ hc).2
+  subst ebt er
+  have := extend_object_exact env X { kind := .object, name := t.name, desc := t.desc, interfaces := t.interfaces, fields := fs } rfl
+    (fun e he hne => by rw [hk e he hne, hkk]) (newsOf (buildField env) (·.fields)) hnews
+    (by simp only [] at hn ⊢; rw [h3, ← e1, hall] at hn; exact hn) hc2
+    (by simp only [] at hni ⊢; rw [s5] at hni; exact hni)
+  rw [this, s2, s3, s5, h3, ← e1, hall]
+
+/-- **The link** (all kinds): if the definition builds and the MERGED definition builds over the same environment,
+    every extension block has the definition's kind and no member name is repeated in the result, then extending
+    the built type with the document's extensions gives exactly the built merged definition. -/
+theorem extend_build_merge (env : Env) (X : List TypeDef) (t : TypeDef) (bt r : TypeD)
+    (hb : buildTypeDef env t = .ok bt) (hm : buildTypeDef env (mergeDef X t) = .ok r)
+    (hk : ∀ e ∈ X, e.name = t.name → e.kind = t.kind)
+    (hn : (r.fields.map (·.name)).Nodup ∧ (r.inputFields.map (·.name)).Nodup ∧ (r.values.map (·.name)).Nodup ∧
+          r.members.Nodup ∧ r.interfaces.Nodup) :
+    extendType env X bt = .ok r := by
+  cases hkk : t.kind with
+  | scalar => exact link_scalar env X t bt r hkk hb hm hk
+  | object => exact link_object env X t bt r hkk hb hm hk hn.1 hn.2.2.2.2
+  | interface => exact link_interface env X t bt r hkk hb hm hk hn.1
+  | union => exact link_union env X t bt r hkk hb hm hk hn.2.2.2.1
+  | enum => exact link_enum env X t bt r hkk hb hm hk hn.2.2.1
+  | input => exact link_input env X t bt r hkk hb hm hk hn.2.1
+
 end PyGql.Props.C11
